@@ -17,14 +17,16 @@ Definition qmat_y (vx vy vz x y z w : R) : R :=
 Definition qmat_z (vx vy vz x y z w : R) : R :=
   vx * (2*x*z + 2*y*w) + vy * (2*y*z - 2*x*w) + vz * (w^2 - x^2 - y^2 + z^2).
 
+Lemma norm3_pow a b c : sqrt (a ^ 2 + b ^ 2 + c ^ 2) = norm3 a b c.
+Proof. unfold norm3. f_equal. ring. Qed.
+
 Lemma gen_qrotate_x_qmat vx vy vz ax ay az t :
   gen_qrotate_x vx vy vz ax ay az t =
   let n := norm3 ax ay az in let s := sin (t / 2) in
   qmat_x vx vy vz (ax / n * s) (ay / n * s) (az / n * s) (cos (t / 2)).
 Proof.
-  unfold gen_qrotate_x, qmat_x, norm3. cbv zeta.
-  replace (ax ^ 2 + ay ^ 2 + az ^ 2) with (ax * ax + ay * ay + az * az) by ring.
-  ring.
+  unfold gen_qrotate_x, qmat_x. cbv zeta.
+  rewrite ?norm3_pow. unfold Rdiv. ring.
 Qed.
 
 Lemma nonzero3_pos ax ay az : nonzero3 ax ay az -> 0 < ax * ax + ay * ay + az * az.
@@ -100,9 +102,8 @@ Lemma gen_qrotate_y_qmat vx vy vz ax ay az t :
   let n := norm3 ax ay az in let s := sin (t / 2) in
   qmat_y vx vy vz (ax / n * s) (ay / n * s) (az / n * s) (cos (t / 2)).
 Proof.
-  unfold gen_qrotate_y, qmat_y, norm3. cbv zeta.
-  replace (ax ^ 2 + ay ^ 2 + az ^ 2) with (ax * ax + ay * ay + az * az) by ring.
-  ring.
+  unfold gen_qrotate_y, qmat_y. cbv zeta.
+  rewrite ?norm3_pow. unfold Rdiv. ring.
 Qed.
 
 Lemma gen_qrotate_z_qmat vx vy vz ax ay az t :
@@ -110,9 +111,8 @@ Lemma gen_qrotate_z_qmat vx vy vz ax ay az t :
   let n := norm3 ax ay az in let s := sin (t / 2) in
   qmat_z vx vy vz (ax / n * s) (ay / n * s) (az / n * s) (cos (t / 2)).
 Proof.
-  unfold gen_qrotate_z, qmat_z, norm3. cbv zeta.
-  replace (ax ^ 2 + ay ^ 2 + az ^ 2) with (ax * ax + ay * ay + az * az) by ring.
-  ring.
+  unfold gen_qrotate_z, qmat_z. cbv zeta.
+  rewrite ?norm3_pow. unfold Rdiv. ring.
 Qed.
 
 (* ---------- C14_rodrigues: the generated components are Rodrigues about axis/|axis| by -angle ---------- *)
